@@ -48,6 +48,8 @@ type Case struct {
 	Yield bool `json:"yield,omitempty"`
 	// Cancel: offer "cancel request context" as an environment event (C05).
 	Cancel bool `json:"cancel,omitempty"`
+	// Intercept: the fault-capable field interceptor is registered and active (C04).
+	Intercept bool `json:"intercept,omitempty"`
 }
 
 // Shared holds per-process immutable pieces.
@@ -62,6 +64,7 @@ type Shared struct {
 func NewShared(w Wiring) *Shared {
 	s := &Shared{W: w, resolverOf: map[string]map[string]bool{}}
 	s.es = w.NewES(func() *Env { return s.cur })
+	CurEnv = func() *Env { return s.cur }
 	s.Schema = s.es.Schema()
 	for typ, gos := range ResolverFields(w.Stub) {
 		m := map[string]bool{}
@@ -92,7 +95,7 @@ func (s *Shared) Parse(op Op) (*ast.QueryDocument, gqlerror.List) {
 // Reference runs the reference executor for a case.
 func (s *Shared) Reference(doc *ast.QueryDocument, c Case, q Quirks) (*Ref, *Val) {
 	r := &Ref{Schema: s.Schema, Doc: doc, Op: doc.Operations[0], Vars: c.Op.Vars, Plan: c.Plan, IsResolver: s.IsResolver,
-		DefaultType: s.W.DefaultType, AltType: s.W.AltType, Quirks: q}
+		DefaultType: s.W.DefaultType, AltType: s.W.AltType, Quirks: q, Intercept: c.Intercept}
 	if r.Vars == nil {
 		r.Vars = map[string]any{}
 	}
@@ -119,7 +122,7 @@ func (s *Shared) NewInst(c Case, doc *ast.QueryDocument) *Inst {
 
 func (in *Inst) Body() {
 	s := in.S
-	in.Env = &Env{Plan: in.C.Plan, DefaultImpl: s.W.DefaultImpl, AltImpl: s.W.AltImpl, Yield: in.C.Yield, HonourCancel: in.C.Cancel}
+	in.Env = &Env{Plan: in.C.Plan, DefaultImpl: s.W.DefaultImpl, AltImpl: s.W.AltImpl, Yield: in.C.Yield, HonourCancel: in.C.Cancel, Intercept: in.C.Intercept}
 	s.cur = in.Env
 	ctx := context.Background()
 	if in.C.Cancel {
@@ -130,6 +133,7 @@ func (in *Inst) Body() {
 	}
 	ctx = graphql.StartOperationTrace(ctx)
 	ex := executor.New(s.es)
+	ex.Use(FaultExt{Cur: func() *Env { return s.cur }})
 	ex.SetRecoverFunc(func(ctx context.Context, err any) error {
 		in.Env.mu.Lock()
 		in.Env.Panics++
@@ -156,15 +160,15 @@ func (in *Inst) Body() {
 			r.Msgs = append(r.Msgs, e.Path.String()+": "+e.Message)
 		}
 		in.Resp = append(in.Resp, r)
-		if resp.HasNext == nil || !*resp.HasNext {
-			// single-payload operations: one more call must return nil; deferred ones end
-			// when hasNext is false
-			if resp.HasNext == nil {
-				if extra := rh(rctx); extra != nil {
-					in.Resp = append(in.Resp, Resp{Data: "EXTRA:" + string(extra.Data)})
-				}
-				break
+		if in.Doc != nil && in.Doc.Operations[0].Operation == ast.Subscription {
+			continue // one response per event until the source ends
+		}
+		if resp.HasNext == nil {
+			// single-payload operation: one more call must return nil
+			if extra := rh(rctx); extra != nil {
+				in.Resp = append(in.Resp, Resp{Data: "EXTRA:" + string(extra.Data)})
 			}
+			break
 		}
 	}
 	in.Done = true
@@ -177,6 +181,10 @@ func classify(msg string) string {
 	switch {
 	case strings.HasPrefix(msg, "E@"):
 		return "resolver"
+	case strings.HasPrefix(msg, "EI@"):
+		return "interceptor"
+	case strings.HasPrefix(msg, "EU@"):
+		return "coercion"
 	case strings.HasPrefix(msg, "PANIC:"):
 		return "panic"
 	case msg == "must not be null", msg == "the requested element is null which the schema does not allow":
